@@ -60,7 +60,8 @@ def work(job):
                     part.violation('%s: encoder output differs from the encoding the standard prescribes' % codec,
                                    {'codec': codec, 'module': text, 'value': repr(v), 'impl': mine[:400], 'standard': s_ans[:400], 'model_M': m_ans[:400]})
                 else:
-                    if mine == m_ans or m_ans.endswith('unmodelled') or all(dn in option_devs for dn in devs):
+                    # (an exception raised inside an extension addition is only approximated by the code models)
+                    if mine == m_ans or r[0] != 'ok' or m_ans.endswith('unmodelled') or all(dn in option_devs for dn in devs):
                         for dname in devs:
                             part.known_finding('%s-%s' % (prop, dname), '%s deviates from the standard (%s)' % (codec, dname))
                     else:
